@@ -115,6 +115,43 @@ def bounded(tier, seed):
                 samples.append({"expression": str(e)[:120], "map": {str(k)[:40]: str(v) for k, v in subs.items()}, "result": str(got)[:120]})
             if len(failures) >= 6:
                 break
+        # directed family (independent of the random stream): the VALUE of a substitution mentions a variable bound by a quantifier around an
+        # occurrence of the key (the key itself does not).  The statement restricts only keys, so the occurrence is replaced.
+        from unified_planning.shortcuts import Variable, Exists, Forall, And, Or, Not, Equals, LE
+        vx, vy = Variable("vx", g.T), Variable("vy", g.T)
+        o0, o1 = g.objs[0], g.objs[1]
+        directed = []
+        for Q in (Forall, Exists):
+            directed += [
+                (Q(Or(g.q(), g.p(vx)), vx), {g.q(): g.p(vx)}),
+                (Q(And(g.p(o0), g.p(vx)), vx), {g.p(o0): g.p(vx)}),
+                (Q(And(g.p(o0), g.p(vx)), vx), {o0: vx}),
+                (And(g.p(vy), Q(Or(g.p(vy), g.p(vx)), vx)), {vy: vx}),
+                (Q(And(g.p(vx), Q(Or(g.q(), g.p(vx), g.p(vy)), vx)), vy), {g.q(): g.p(vx)}),
+                (Q(And(g.p(vx), Q(Or(g.q(), g.p(vx), g.p(vy)), vx)), vy), {g.q(): g.p(vy)}),
+                (Q(LE(g.x(), 3) & g.p(vx), vx), {g.x(): g.s_(), g.p(o1): g.p(vx)}),
+                (Q(Equals(g.loc(o0), vx), vx), {g.loc(o0): g.loc(vx)}),
+                (Q(Or(g.p(g.loc(o0)), g.p(vx)), vx, vy), {g.loc(o0): vy, g.q(): g.p(vx)}),
+                (Q(Or(g.q(), g.p(vx)), vx), {g.q(): Not(g.p(vx)), g.p(vx): g.q()}),      # second key contains the bound variable: kept
+            ]
+        for e, subs in directed:
+            evals += 1
+            try:
+                got = e.substitute(subs)
+            except Exception as ex:  # noqa
+                failures.append({"what": f"substitute raised {type(ex).__name__}: {ex}", "concrete": {"expression": str(e), "map": {str(k): str(v) for k, v in subs.items()}}, "observed": repr(ex)})
+                continue
+            psubs = {}
+            for k_, v_ in subs.items():
+                k2, v2 = env.expression_manager.auto_promote(k_, v_)
+                psubs[k2] = v2
+            want = ref_subst(env, e, psubs)
+            if got is not e:
+                nontrivial.add(str(e))
+            if got is not want:
+                failures.append({"what": "result differs from the top-down reference substitution (value mentions a variable bound around the key)",
+                                 "concrete": {"expression": str(e), "map": {str(k): str(v) for k, v in subs.items()}},
+                                 "observed": {"got": str(got), "reference": str(want)}})
         # incompatible map: rejected before anything changes, later calls unaffected
         bad_attempts = 0
         for i in range(60 if tier == "quick" else 600):
